@@ -83,14 +83,17 @@ def two_bloc_params(tier):
     props = [(0.5, 0.5), (0.7, 0.3), (1.0, 0.0)]
     for (a, b) in sizes:
         xs, ys = SLATES["X"][:a], SLATES["Y"][:b]
-        for ix in interval_menu(a):
+        for jx, ix in enumerate(interval_menu(a)):
+            # the second bloc's view of slate X: the next entry of the menu, so that the two blocs can differ in how many
+            # candidates of a slate they give zero support to
+            ix_other = interval_menu(a)[(jx + 1) % len(interval_menu(a))]
             for iy in interval_menu(b)[:2]:
                 for c in cohs:
                     for pr in (props if (a, b) == (2, 1) or tier != "quick" else props[:2]):
                         out.append({
                             "slates": {"X": xs, "Y": ys},
                             "supports": {"X": {"X": dict(zip(xs, ix)), "Y": dict(zip(ys, iy))},
-                                         "Y": {"X": dict(zip(xs, ix[::-1])), "Y": dict(zip(ys, iy))}},
+                                         "Y": {"X": dict(zip(xs, ix_other)), "Y": dict(zip(ys, iy))}},
                             "cohesion": {"X": {"X": c, "Y": round(1 - c, 10)}, "Y": {"Y": 0.6, "X": 0.4}},
                             "props": {"X": pr[0], "Y": pr[1]},
                         })
